@@ -43,6 +43,8 @@ use write_fonts::tables::hmtx::{Hmtx, LongMetric};
 use write_fonts::tables::maxp::Maxp;
 use write_fonts::{dump_table, FontBuilder};
 
+mod audit;
+
 fn main() {
     main_for("C10", body)
 }
@@ -337,14 +339,15 @@ fn check_iup(run: &Run, c: &IupCase, l: &mut Local) -> Option<Vec<GlyphDelta>> {
                 return None;
             }
         }
+        // observation = the optimiser's decision per delta (with the delta it was taken on); the
+        // coordinates are input, not outcome, and are left out (the merged digest set is then ~20x
+        // smaller, which is what made the merge the serial bottleneck of the run)
         h.u64(res[i].required as u64);
         h.i64(want.0);
         h.i64(want.1);
-        if i < c.coords.len() {
-            h.i64(c.coords[i].0);
-            h.i64(c.coords[i].1);
-        }
     }
+    h.u64(c.coords.len() as u64);
+    h.u64(c.ends.len() as u64);
     l.deltas += all.len() as u64;
     l.optional += nopt;
     let d = h.finish();
@@ -403,6 +406,7 @@ fn sweep_family(
     radix: usize,
     n: usize,
     make: &(dyn Fn(&[usize], i64) -> IupCase + Sync),
+    skip_tol1_at: Option<usize>,
 ) {
     // parallel grain: the first one or two digits
     let fixed = n.min(2);
@@ -420,6 +424,11 @@ fn sweep_family(
             }
             loop {
                 for tol2 in TOLS2 {
+                    // quick: the largest a1 size (n = 5, 3.2 M contours) runs under {0, 0.5, 2.5}; tolerance
+                    // 1.0 is covered there for n <= 4 and for n = 5 in thorough (budget: see AUDIT.md)
+                    if skip_tol1_at.is_some_and(|m| n == m) && tol2 == 2 {
+                        continue;
+                    }
                     let c = make(&digits, tol2);
                     check_iup(run, &c, &mut l);
                 }
@@ -443,17 +452,20 @@ fn optimiser_families(run: &Run) {
     run.bound("a.x_alphabet", json!(XS));
     run.bound("a.delta_alphabet", json!(DS));
     run.bound("a.tolerances", json!([0.0, 0.5, 1.0, 2.5]));
+    if run.tier == Tier::Quick {
+        run.bound("a.a1_n5_tolerances(quick)", json!([0.0, 0.5, 2.5]));
+    }
     run.bound("a.a1_max_points(y,dy rotated copies)", json!(n1));
     run.bound("a.a2_max_points(dx,dy independent)", json!(n2));
     run.bound("a.a3_max_points(x,y,dx,dy independent)", json!(n3));
     for n in 1..=n1 {
-        sweep_family(run, "a1", 20, n, &a1_case);
+        sweep_family(run, "a1", 20, n, &a1_case, (run.tier == Tier::Quick).then_some(5));
     }
     for n in 1..=n2 {
-        sweep_family(run, "a2", 100, n, &a2_case);
+        sweep_family(run, "a2", 100, n, &a2_case, None);
     }
     for n in 1..=n3 {
-        sweep_family(run, "a3", 400, n, &a3_case);
+        sweep_family(run, "a3", 400, n, &a3_case, None);
     }
     // two-contour glyphs: all pairs of a1 n=2 sets; thorough adds n=2 × n=3
     let second_n: &[usize] = match run.tier {
@@ -561,8 +573,6 @@ fn check_iup_half(run: &Run, coords2: &[(i64, i64)], deltas2: &[(i64, i64)], end
         h.u64(res[i].required as u64);
         h.i64(deltas2[i].0);
         h.i64(deltas2[i].1);
-        h.i64(all2[i].0);
-        h.i64(all2[i].1);
     }
     l.deltas += all2.len() as u64;
     l.optional += nopt;
@@ -919,6 +929,10 @@ fn check_gvar(run: &Run, family: &str, glyphs: &[GlyphSpec], axis_count: u16, l:
             if let Some((id, detail)) = compare_glyph(g, &dec) {
                 return Some((id, format!("glyph {gid}: {detail}")));
             }
+            // the other public routes to the same deltas (the ones skrifa draws through) agree
+            if let Some((id, detail)) = audit::reader_routes(&gvar, gid as u32, g.coords.len() + 4, &dec) {
+                return Some((id, format!("glyph {gid}: {detail}")));
+            }
             for d in &dec {
                 if d.all_points {
                     l.dense += 1;
@@ -1225,6 +1239,12 @@ fn structured_family(run: &Run) {
 /// (equal consecutive offsets before, between and after the big ones); the point count of the fourth
 /// big glyph is swept.
 fn offsets_glyphs(n: usize) -> Vec<GlyphSpec> {
+    offsets_glyphs_with(n, 0)
+}
+
+/// `filler` > 0 replaces the small glyph by one whose data grows by one byte per point (byte x
+/// deltas, zero y deltas), so that the total size can be stepped through every value
+fn offsets_glyphs_with(n: usize, filler: usize) -> Vec<GlyphSpec> {
     let region = tents_1axis()[0].clone();
     let big = |n: usize, salt: i16| -> GlyphSpec {
         GlyphSpec {
@@ -1241,7 +1261,17 @@ fn offsets_glyphs(n: usize) -> Vec<GlyphSpec> {
         }
     };
     let empty = || GlyphSpec { coords: scatter(2), ends: vec![1], tol2: 0, tuples: vec![] };
-    vec![empty(), big(14000, 0), empty(), empty(), big(14000, 1), big(14000, 2), empty(), big(n, 3), empty(), big(3, 4), empty()]
+    let small = if filler == 0 {
+        big(3, 4)
+    } else {
+        GlyphSpec {
+            coords: scatter(filler),
+            ends: vec![filler - 1],
+            tol2: 0,
+            tuples: vec![TupleSpec { region: region.clone(), deltas: (0..filler + 4).map(|i| ((i % 100) as i16 + 1, 0, true)).collect() }],
+        }
+    };
+    vec![empty(), big(14000, 0), empty(), empty(), big(14000, 1), big(14000, 2), empty(), big(n, 3), empty(), small, empty()]
 }
 
 /// (b3) total data size swept across the short/long offsets switch (131070 / 131072 bytes)
@@ -1275,12 +1305,16 @@ fn offsets_family(run: &Run) {
     let window: Vec<usize> = (hi - 13..hi + 13).collect();
     run.bound("b3.swept_point_counts_of_last_big_glyph", json!([window[0], window[window.len() - 1]]));
     run.bound("b3.glyph_list", json!("empty, big, empty, empty, big, big, empty, swept, empty, small, empty"));
-    let results: Vec<(Local, usize, bool)> = window
+    // every point count of the window x small-glyph sizes 0 (the original word-delta glyph), 1..=6
+    // bytes apart: the summed data sizes step through every even value around 131070
+    run.bound("b3.filler_glyph_points", json!([0, 6]));
+    let grid: Vec<(usize, usize)> = window.iter().flat_map(|&n| (0..=6usize).map(move |f| (n, f))).collect();
+    let results: Vec<(Local, usize, bool)> = grid
         .par_iter()
-        .map(|&n| {
+        .map(|&(n, filler)| {
             let mut l = Local::new();
-            let gs = offsets_glyphs(n);
-            let case = || json!({"kind":"offsets","last_glyph_points":n});
+            let gs = offsets_glyphs_with(n, filler);
+            let case = || json!({"kind":"offsets","last_glyph_points":n,"filler":filler});
             let bytes = check_gvar(run, "b3", &gs, 1, &mut l, &case);
             let len = bytes.as_ref().map(|b| b.len()).unwrap_or(0);
             let long = l.long_offsets > 0;
@@ -1299,15 +1333,26 @@ fn offsets_family(run: &Run) {
         sizes.push(json!([len, long]));
         l.merge(run, "b3");
     }
+    {
+        // which total table sizes were produced with short / long offsets (distinct, sorted)
+        let mut v: Vec<(u64, bool)> = sizes.iter().map(|s: &Value| (s[0].as_u64().unwrap_or(0), s[1].as_bool().unwrap_or(false))).collect();
+        v.sort();
+        v.dedup();
+        run.count("b3.distinct_table_sizes", v.len() as u64);
+        if let Some(max_short) = v.iter().filter(|x| !x.1).map(|x| x.0).max() {
+            run.extra("b3.largest_table_with_short_offsets", json!(max_short));
+        }
+        if let Some(min_long) = v.iter().filter(|x| x.1).map(|x| x.0).min() {
+            run.extra("b3.smallest_table_with_long_offsets", json!(min_long));
+        }
+        sizes = v.iter().map(|x| json!([x.0, x.1])).collect();
+    }
     run.extra("b3.table_sizes_and_long_flag", json!(sizes));
     if (shorts == 0 || longs == 0) && run.violations() == 0 {
         run.machinery_error(&format!("b3 sweep does not straddle the offset switch (short {shorts}, long {longs})"));
     }
 }
 
-fn offsets_replay_glyphs(n: usize) -> Vec<GlyphSpec> {
-    offsets_glyphs(n)
-}
 
 // ---------------------------------------------------------------------------
 // (c) application through skrifa
@@ -1478,6 +1523,11 @@ fn check_font_inner(run: &Run, f: &FontSpec, locs: &[Vec<i16>], l: &mut Local) {
             return;
         }
     };
+    // what was read back is what was given to the builder (the (b) statement, on the drawn fonts too)
+    if let Some((id, detail)) = compare_glyph(g, &dec) {
+        run.violation(&format!("gvar round trip: {id}"), &detail, font_json(f, &[], "gvar"));
+        return;
+    }
     let inferred: Vec<Vec<(R, R)>> = dec.iter().map(|d| infer(&all, &g.ends, &d.explicit)).collect();
     let max_abs: Vec<i128> = dec
         .iter()
@@ -1517,7 +1567,8 @@ fn check_font_inner(run: &Run, f: &FontSpec, locs: &[Vec<i16>], l: &mut Local) {
         let eps = R::new(eps_num, 1 << 16);
         let mut expect: Vec<(R, R)> = vec![];
         // index n = phantom point 1 (the origin): the scaler shifts the outline so that it lies at x = 0
-        for i in 0..=n {
+        // indices n, n + 1 = phantom points 1 and 2 (origin and advance)
+        for i in 0..=n + 1 {
             let mut ex = R::int(all[i].0 as i128);
             let mut ey = R::int(all[i].1 as i128);
             for (t, s) in scalars.iter().enumerate() {
@@ -1535,8 +1586,8 @@ fn check_font_inner(run: &Run, f: &FontSpec, locs: &[Vec<i16>], l: &mut Local) {
             let mut pen = PtsPen::default();
             let settings = DrawSettings::unhinted(Size::unscaled(), LocationRef::new(&coords)).with_path_style(style);
             let r = guard(|| og.draw(settings, &mut pen));
-            match r {
-                Ok(Ok(_)) => {}
+            let metrics = match r {
+                Ok(Ok(m)) => m,
                 Ok(Err(e)) => {
                     run.violation(&format!("c: draw fails ({style_name})"), &format!("{e}"), font_json(f, loc, style_name));
                     continue;
@@ -1548,6 +1599,31 @@ fn check_font_inner(run: &Run, f: &FontSpec, locs: &[Vec<i16>], l: &mut Local) {
                         font_json(f, loc, style_name),
                     );
                     continue;
+                }
+            };
+            // the length of the coordinate array: trailing zeros may be omitted, extra entries are ignored
+            if let Some(detail) = audit::coords_length_check(&og, &coords, style, &pen.0) {
+                run.violation(
+                    &format!("drawing depends on the length of the coordinate array ({style_name})"),
+                    &format!("location {loc:?}: {detail}; full-length draw {:?}", &pen.0[..pen.0.len().min(4)]),
+                    font_json(f, loc, style_name),
+                );
+            }
+            // reported metrics = varied phantom points, each rounded on its own (FreeType style)
+            if style_name == "freetype" {
+                if let (Some(adv), Some(lsb)) = (metrics.advance_width, metrics.lsb) {
+                    let half = R::new(1, 2);
+                    let iv = |e: R| (floor_r(e.sub(eps).add(half)), floor_r(e.add(eps).add(half)));
+                    let (p1, p2) = (iv(expect[n].0), iv(expect[n + 1].0));
+                    let ok_a = adv.fract() == 0.0 && (p2.0 - p1.1..=p2.1 - p1.0).contains(&(adv as i128));
+                    let ok_l = lsb.fract() == 0.0 && (p1.0..=p1.1).contains(&(lsb as i128));
+                    if !(ok_a && ok_l) {
+                        run.violation(
+                            "advance / left side bearing reported by draw differ from the varied phantom points (freetype; simple glyph)",
+                            &format!("location {loc:?}: advance {adv}, lsb {lsb}; exact pp1 {}, pp2 {}", expect[n].0.to_f64(), expect[n + 1].0.to_f64()),
+                            font_json(f, loc, style_name),
+                        );
+                    }
                 }
             }
             if pen.1 || pen.0.len() != n {
@@ -2431,6 +2507,16 @@ fn vglyph_gvar_spec(g: &VGlyph) -> GlyphSpec {
 }
 
 fn cfont_json(f: &CFont, gid: u32, loc: &[i16], style: &str) -> Value {
+    // a simple glyph draws the same whatever else is in the font: keep only that glyph (fonts of the
+    // c6 family hold hundreds)
+    if f.glyphs.len() > 8 {
+        if let Some(VGlyph::Simple(s)) = f.glyphs.get(gid as usize) {
+            return json!({
+                "kind": "cdraw", "axis_count": f.axis_count, "draw_glyph": 0, "location": loc, "style": style,
+                "glyphs": [json!({"simple": glyph_json(s)})],
+            });
+        }
+    }
     json!({
         "kind": "cdraw", "axis_count": f.axis_count, "draw_glyph": gid, "location": loc, "style": style,
         "glyphs": f.glyphs.iter().map(|g| match g {
@@ -2523,6 +2609,11 @@ fn build_cfont(f: &CFont) -> Result<Vec<u8>, String> {
     let mut metrics = vec![];
     for g in &f.glyphs {
         match g {
+            VGlyph::Simple(s) if s.coords.is_empty() => {
+                // a glyph without an outline (its variation data moves the phantom points only)
+                b.add_glyph(&Glyph::Empty).map_err(|e| format!("{e}"))?;
+                metrics.push(LongMetric::new(C_ADVANCE, 0));
+            }
             VGlyph::Simple(s) => {
                 let (glyph, bbox) = simple_write_glyph(s);
                 b.add_glyph(&glyph).map_err(|e| format!("{e}"))?;
@@ -2597,6 +2688,8 @@ struct Eval {
     exact: Vec<(R, R)>,
     /// phantom point 1 x: interval and exact
     pp1: (Iv, R),
+    /// phantom point 2 x (advance + its delta): interval and exact
+    pp2: (Iv, R),
     /// accumulated fixed-point error bound of everything below
     eps: R,
     /// number of active tuples in the whole tree
@@ -2623,6 +2716,12 @@ impl CRef<'_> {
             active += 1;
             let m = d.explicit.iter().flatten().map(|e| e.0.abs().max(e.1.abs())).max().unwrap_or(0) as i128;
             eps_num += m * self.font.axis_count as i128 + 3;
+            if !d.all_points && !ends.is_empty() {
+                // inference in 16.16: the slope (out2 - out1) / (in2 - in1) carries one rounding of up to
+                // 2^-16 and is multiplied by a coordinate difference of at most the glyph's extent
+                let ext = |f: &dyn Fn(&(i64, i64)) -> i64| all.iter().map(f).max().unwrap_or(0) - all.iter().map(f).min().unwrap_or(0);
+                eps_num += (ext(&|p| p.0).max(ext(&|p| p.1)) + 1) as i128;
+            }
             let inf = infer(all, ends, &d.explicit);
             for i in 0..all.len() {
                 out[i] = (out[i].0.add(s.mul(inf[i].0)), out[i].1.add(s.mul(inf[i].1)));
@@ -2646,7 +2745,9 @@ impl CRef<'_> {
                     iv.push((Iv { lo: x + rx.lo, hi: x + rx.hi }, Iv { lo: y + ry.lo, hi: y + ry.hi }));
                     exact.push((R::int(x).add(d[i].0), R::int(y).add(d[i].1)));
                 }
-                Eval { iv, exact, pp1: (round_iv(d[n].0, eps), d[n].0), eps, active }
+                let r2 = round_iv(d[n + 1].0, eps);
+                let adv = C_ADVANCE as i128;
+                Eval { iv, exact, pp1: (round_iv(d[n].0, eps), d[n].0), pp2: (Iv { lo: adv + r2.lo, hi: adv + r2.hi }, R::int(adv).add(d[n + 1].0)), eps, active }
             }
             VGlyph::Composite { comps, tuples } => {
                 let nc = comps.len();
@@ -2655,6 +2756,9 @@ impl CRef<'_> {
                 let (d, eps, mut active) = self.deltas(gid, &all, &[], tuples);
                 let mut total_eps = eps;
                 let mut pp1 = (round_iv(d[nc].0, eps), d[nc].0);
+                let r2 = round_iv(d[nc + 1].0, eps);
+                let adv = C_ADVANCE as i128;
+                let mut pp2 = (Iv { lo: adv + r2.lo, hi: adv + r2.hi }, R::int(adv).add(d[nc + 1].0));
                 let mut iv = vec![];
                 let mut exact = vec![];
                 for (i, c) in comps.iter().enumerate() {
@@ -2663,6 +2767,7 @@ impl CRef<'_> {
                     total_eps = total_eps.add(child.eps);
                     if c.use_my_metrics {
                         pp1 = child.pp1;
+                        pp2 = child.pp2;
                     }
                     let m = [c.xf[0], c.xf[1], c.xf[2], c.xf[3]].map(|b| R::new(b as i128, 1 << 14));
                     let have_xform = c.xf != IDENTITY;
@@ -2696,7 +2801,7 @@ impl CRef<'_> {
                         ));
                     }
                 }
-                Eval { iv, exact, pp1, eps: total_eps, active }
+                Eval { iv, exact, pp1, pp2, eps: total_eps, active }
             }
         }
     }
@@ -2780,7 +2885,11 @@ fn check_cfont_inner(run: &Run, f: &CFont, draw: &[u32], locs: &[Vec<i16>], reus
             l.trans += 2;
             let ev = reference.eval(gid as usize);
             draw_check(run, f, &ogs[gid as usize], gid, loc, &coords, &ev, None, "", l);
+            if matches!(&f.glyphs[gid as usize], VGlyph::Simple(s) if !s.coords.is_empty()) {
+                audit::scaled_check(run, f, &ogs[gid as usize], gid, loc, &coords, &ev, l);
+            }
         }
+        audit::phantom_api_check(run, f, &font, &dec, loc, &coords, l);
         // one caller-provided buffer reused for every glyph of the font, in both orders: what a glyph
         // draws as must not depend on what was drawn before it
         if reuse {
@@ -2796,6 +2905,21 @@ fn check_cfont_inner(run: &Run, f: &CFont, draw: &[u32], locs: &[Vec<i16>], reus
                 }
             }
         }
+    }
+}
+
+/// identity prefix for glyphs that hold a tuple in which no delta is required (nothing referenced):
+/// the builder stores such a tuple as "all points" without any delta, which readers cannot apply
+/// (recorded defect; a separate identity keeps it apart from every other finding)
+fn allopt_prefix(g: &VGlyph) -> &'static str {
+    let ts = match g {
+        VGlyph::Simple(s) => &s.tuples,
+        VGlyph::Composite { tuples, .. } => tuples,
+    };
+    if ts.iter().any(|t| !t.deltas.is_empty() && t.deltas.iter().all(|d| !d.2)) {
+        "glyph with a tuple that references no point: "
+    } else {
+        ""
     }
 }
 
@@ -2830,8 +2954,8 @@ fn draw_check(
             Some(m) => settings.with_memory(Some(&mut m[..])),
             None => settings,
         };
-        match guard(|| og.draw(settings, &mut pen)) {
-            Ok(Ok(_)) => {}
+        let metrics = match guard(|| og.draw(settings, &mut pen)) {
+            Ok(Ok(m)) => m,
             Ok(Err(e)) => {
                 run.violation(&format!("c2: draw of a variable glyph fails ({style_name}{label})"), &format!("{e}"), cfont_json(f, gid, loc, style_name));
                 continue;
@@ -2840,7 +2964,7 @@ fn draw_check(
                 run.violation(&format!("c2: draw panic: {} in {}", p.kind(), p.site()), &p.message, cfont_json(f, gid, loc, style_name));
                 continue;
             }
-        }
+        };
         if pen.1 || pen.0.len() != ev.iv.len() {
             run.violation(
                 &format!("c2: drawn glyph has the wrong structure ({style_name}{label})"),
@@ -2850,6 +2974,30 @@ fn draw_check(
             continue;
         }
         let mut bad: Option<String> = None;
+        // the metrics the draw call reports are the varied phantom points: advance = pp2 - pp1, each
+        // rounded to a whole unit on its own (FreeType style; the HarfBuzz style does not carry the
+        // varied phantom points of simple glyphs and is not judged here)
+        if style_name == "freetype" {
+            if let (Some(adv), Some(lsb)) = (metrics.advance_width, metrics.lsb) {
+                let a = Iv { lo: ev.pp2.0.lo - ev.pp1.0.hi, hi: ev.pp2.0.hi - ev.pp1.0.lo };
+                let ok_a = adv.fract() == 0.0 && (a.lo..=a.hi).contains(&(adv as i128));
+                let ok_l = lsb.fract() == 0.0 && (ev.pp1.0.lo..=ev.pp1.0.hi).contains(&(lsb as i128));
+                if !(ok_a && ok_l) {
+                    let kind = match &f.glyphs[gid as usize] {
+                        VGlyph::Composite { comps, .. } => if comps.iter().any(|c| c.use_my_metrics) { "composite; USE_MY_METRICS" } else { "composite" },
+                        VGlyph::Simple(s) => if s.coords.is_empty() { "glyph without outline" } else { "simple glyph" },
+                    };
+                    run.violation(
+                        &format!("{}advance / left side bearing reported by draw differ from the varied phantom points ({style_name}{label}; {kind})", allopt_prefix(&f.glyphs[gid as usize])),
+                        &format!(
+                            "location {loc:?}: advance {adv} (accepted {}..={}), lsb {lsb} (accepted {}..={}); exact pp1 {}, pp2 {}",
+                            a.lo, a.hi, ev.pp1.0.lo, ev.pp1.0.hi, ev.pp1.1.to_f64(), ev.pp2.1.to_f64()
+                        ),
+                        cfont_json(f, gid, loc, style_name),
+                    );
+                }
+            }
+        }
         if style_name == "freetype" {
             for (i, (got, want)) in pen.0.iter().zip(ev.iv.iter()).enumerate() {
                 let xi = Iv { lo: want.0.lo - ev.pp1.0.hi, hi: want.0.hi - ev.pp1.0.lo };
@@ -2908,7 +3056,8 @@ fn draw_check(
             let own_static = glyph_is_static(&f.glyphs[gid as usize]);
             run.violation(
                 &format!(
-                    "drawn variable {kind} differs from components + Σ scalar·delta ({style_name}{label}{}{}{}{}{})",
+                    "{}drawn variable {kind} differs from components + Σ scalar·delta ({style_name}{label}{}{}{}{}{})",
+                    allopt_prefix(&f.glyphs[gid as usize]),
                     if own_static { "; glyph without variation data" } else { "" },
                     if has_static { "; component without variation data" } else { "" },
                     if nested { "; nested" } else { "" },
@@ -3177,7 +3326,19 @@ fn composite_family(run: &Run) {
 /// anything still panics (also inside worker threads) the run must end with a verdict (exit 1), never
 /// with a harness stop.
 fn family(run: &Run, name: &str, f: impl FnOnce()) {
-    if let Err(p) = guard(f) {
+    // development aid: C10_FAMILIES=a,b restricts the run to the named families; such a run is reported
+    // as capped, never as exhaustive
+    if let Ok(only) = std::env::var("C10_FAMILIES") {
+        if !only.split(',').any(|x| x == name) {
+            run.cap_hit(&format!("family {name} skipped by C10_FAMILIES"));
+            return;
+        }
+    }
+    let t0 = std::time::Instant::now();
+    let r = guard(f);
+    // wall time per family: information only (never influences what is explored)
+    run.extra(&format!("wall_s.{name}"), json!((t0.elapsed().as_secs_f64() * 100.0).round() / 100.0));
+    if let Err(p) = r {
         run.violation(
             &format!("panic outside the per-case guards (family {name}): {} in {}", p.kind(), p.site()),
             &format!("{} ({}:{})", p.message, p.file, p.line),
@@ -3211,9 +3372,14 @@ fn body(run: &Run, replay: Option<&Value>) {
                 let c = || case.clone();
                 check_gvar(run, case["family"].as_str().unwrap_or("b"), &gs, axes, &mut l, &c);
             }
+            Some("gvar_order") => {
+                let gs: Vec<GlyphSpec> = case["glyphs"].as_array().unwrap().iter().map(glyph_from_json).collect();
+                let order: Vec<usize> = case["order"].as_array().unwrap().iter().map(|x| x.as_u64().unwrap() as usize).collect();
+                audit::check_order(run, &gs, &order, &mut l);
+            }
             Some("tent") => check_tent(run, &region_from_json(&case["region"]), &mut l),
             Some("offsets") => {
-                let gs = offsets_replay_glyphs(case["last_glyph_points"].as_u64().unwrap() as usize);
+                let gs = offsets_glyphs_with(case["last_glyph_points"].as_u64().unwrap() as usize, case["filler"].as_u64().unwrap_or(0) as usize);
                 let c = || case.clone();
                 check_gvar(run, "b3", &gs, 1, &mut l, &c);
             }
@@ -3268,10 +3434,16 @@ fn body(run: &Run, replay: Option<&Value>) {
     family(run, "pipeline_family", || pipeline_family(run));
     family(run, "structured_family", || structured_family(run));
     family(run, "offsets_family", || offsets_family(run));
+    family(run, "point_grammar_family", || audit::point_grammar_family(run));
+    family(run, "delta_grammar_family", || audit::delta_grammar_family(run));
+    family(run, "builder_order_family", || audit::builder_order_family(run));
+    family(run, "tuple_mix_family", || audit::tuple_mix_family(run));
     family(run, "tent_family", || tent_family(run));
     family(run, "application_family", || application_family(run));
     family(run, "sparse_run_family", || sparse_run_family(run));
     family(run, "curve_family", || curve_family(run));
     family(run, "composite_family", || composite_family(run));
     family(run, "nested_family", || nested_family(run));
+    family(run, "drawn_inference_family", || audit::drawn_inference_family(run));
+    family(run, "empty_glyph_family", || audit::empty_glyph_family(run));
 }
